@@ -28,6 +28,8 @@ type GenInput struct {
 	// body / inside a function literal of a package-level initialiser)
 	LocalTypes []string `json:"localTypes"`
 	LitTypes   []string `json:"litTypes"`
+	// generic interfaces for which the source also declares `type <Name>Alias = <Name>[targs]`
+	AliasOf []string `json:"aliasOf"`
 }
 
 type c01 struct{ prop string }
@@ -120,8 +122,11 @@ func genGen(r *rand.Rand, idx int, stream string) GenInput {
 			}
 		}
 	}
-	in.LocalTypes, in.LitTypes = []string{}, []string{}
+	in.LocalTypes, in.LitTypes, in.AliasOf = []string{}, []string{}, []string{}
 	for _, it := range in.Data.Ifaces {
+		if len(it.TypeParams) > 0 && r.Intn(2) == 0 {
+			in.AliasOf = append(in.AliasOf, it.Name)
+		}
 		if r.Intn(3) == 0 {
 			in.LocalTypes = append(in.LocalTypes, it.Name)
 		}
@@ -228,6 +233,17 @@ func (p c01) Run(c *Ctx, raw json.RawMessage) Case {
 			fmt.Fprintf(&lb, "\t{\n\t\ttype %s interface{ LitOnly%s() }\n\t\tvar _ %s\n\t}\n", n, n, n)
 		}
 		lb.WriteString("\treturn 0\n}()\n")
+		for _, it := range d.Ifaces {
+			for _, n := range in.AliasOf {
+				if n == it.Name {
+					as := []string{}
+					for _, tp := range it.TypeParams {
+						as = append(as, strings.ReplaceAll(typeArgFor(tp.Constraint), "alpha.I", "interface{ M() }"))
+					}
+					fmt.Fprintf(&lb, "\n// an alias of an instantiation is not a named interface type of its own\ntype %sAlias = %s[%s]\n", n, n, strings.Join(as, ", "))
+				}
+			}
+		}
 		files["src/locals.go"] = lb.String()
 	}
 	files["mocks/doc.go"] = "package mocks\n"
